@@ -252,8 +252,52 @@ SCOPE_SHAPES = sorted({(r, c) for r in range(1, 4) for c in range(1, 6)} | {(r, 
                       | {(4, 4)})
 
 
+def _lattice_polygon(rng):
+    """a convex polygon with vertices on a coarse lattice (coordinates multiples of m), so that every edge passes exactly
+    through further pixels: those pixels lie ON the hull boundary, where a scanline intersection computed in floating
+    point may round to either side. Vertices, all edge pixels and (half of the time) the whole interior are set."""
+    from math import gcd
+    m = rng.choice([2, 3, 4, 5, 7, 11])
+    size = rng.choice([12, 24, 32, 48])
+    k = max(1, (size - 1) // m)
+    pts = {(m * rng.randint(0, k), m * rng.randint(0, k)) for _ in range(rng.randint(3, 6))}
+    if rng.random() < 0.3:          # the long diagonal / shallow edges of a right triangle
+        n = m * k
+        pts = {(0, 0), (0, n), (n, 0)} if rng.random() < 0.5 else {(0, 0), (n // 3, n), (n, 0)}
+    pts = sorted(pts)
+    r, c = max(p[0] for p in pts) + 1 + rng.randint(0, 2), max(p[1] for p in pts) + 1 + rng.randint(0, 2)
+
+    def cross(o, a, b):
+        return (a[0] - o[0]) * (b[1] - o[1]) - (a[1] - o[1]) * (b[0] - o[0])
+    lo, up = [], []
+    for q in pts:
+        while len(lo) >= 2 and cross(lo[-2], lo[-1], q) <= 0:
+            lo.pop()
+        lo.append(q)
+    for q in reversed(pts):
+        while len(up) >= 2 and cross(up[-2], up[-1], q) <= 0:
+            up.pop()
+        up.append(q)
+    hull = lo[:-1] + up[:-1] if len(pts) > 1 else list(pts)
+    A = np.zeros((r, c), bool)
+    for i, a in enumerate(hull):
+        b = hull[(i + 1) % len(hull)]
+        dy, dx = b[0] - a[0], b[1] - a[1]
+        g = gcd(abs(dy), abs(dx)) or 1
+        for t in range(g + 1):
+            A[a[0] + dy // g * t, a[1] + dx // g * t] = True
+    if len(hull) >= 3 and rng.random() < 0.5:
+        for y in range(r):
+            for x in range(c):
+                if all(cross(hull[i], hull[(i + 1) % len(hull)], (y, x)) >= 0 for i in range(len(hull))):
+                    A[y, x] = True
+    return A
+
+
 def _rand_image(rng):
     style = rng.random()
+    if style < 0.06:
+        return _lattice_polygon(rng), 'lattice-polygon'
     r = rng.choice([1, 2, 3, 5, 8, 13, 21, 40]) if rng.random() < 0.4 else rng.randint(1, 40)
     c = rng.choice([1, 2, 3, 5, 8, 13, 21, 40]) if rng.random() < 0.4 else rng.randint(1, 40)
     if rng.random() < 0.5:
